@@ -350,6 +350,17 @@ def slice (s : RState) (t : Nat) (pops : List (Nat × Bool)) (left : String) : R
 
 end
 
+/-- compare the model's shared state at the end of a critical section with what the real worker
+    noted just before it released the lock: queue length, busy counter, incumbent score (if any),
+    the six statistics counters -/
+def cmpState (s : RState) (noted : List Nat × Option Nat) (whr : String) : RState :=
+  if s.err.isSome then s else
+  let model : List Nat := [s.c.pending.length, s.c.busy, s.st.executed, s.st.bound, s.st.noSol, s.st.infeasible, s.st.feasible, s.st.newBest]
+  let mbest : Option Nat := if s.c.best.isSome then some s.c.bestScore else none
+  if model != noted.1 then { s with err := some s!"shared state at the end of a critical section of {whr}: model {model}, real {noted.1} (pending, busy, executed, bound, no-solution, infeasible, feasible, new-best)" }
+  else if mbest != noted.2 then { s with err := some s!"incumbent score at the end of a critical section of {whr}: model {mbest}, real {noted.2}" }
+  else s
+
 def handle (line : String) : String :=
   match Json.parse line with
   | .error e => s!"bad json {e}"
@@ -361,6 +372,9 @@ def handle (line : String) : String :=
     let top := (j.getObjValAs? Nat "top").toOption.getD 4294967295
     Id.run do
       let mut s : RState := { c := init 0 top T, st := {} }
+      -- the shared state the real worker noted when it was about to release the lock (hook in bab.rs)
+      let mut noted : Option (List Nat × Option Nat) := none
+      let mut ncmp := 0
       let mut pops : List (Nat × Bool) := []
       let mut started : Array Bool := Array.replicate (T + 1) false
       let mut nev := 0
@@ -369,7 +383,10 @@ def handle (line : String) : String :=
         let tag := (a.getD 0 Json.null).getStr?.toOption.getD ""
         let t := (a.getD 1 Json.null).getNat?.toOption.getD 0
         match tag with
-        | "run" => pops := []
+        | "run" => pops := []; noted := none
+        | "state" =>
+          let nums := ((a.getD 2 Json.null).getArr?.toOption.getD #[]).toList.map (fun x => x.getNat?.toOption.getD 0)
+          noted := some (nums, (a.getD 3 Json.null).getNat?.toOption)
         | "wake" =>
           s := doEv inst s (.wake (t - 1)) s!"wake {t - 1}"; nev := nev + 1
         | "pop" =>
@@ -384,13 +401,18 @@ def handle (line : String) : String :=
           else
             let left := if st == "Waiting" then "waiting" else "solving"
             s := slice inst s (t - 1) pops left; nev := nev + 1
-          pops := []
+            if let some nt := noted then
+              s := cmpState s nt s!"thread {t} ({left})"; ncmp := ncmp + 1
+          pops := []; noted := none
         | "exit" =>
           let p := (a.getD 2 Json.null).getBool?.toOption.getD false
           if !(started.getD t false) then
             s := fail s s!"thread {t} exits before its first lock()"
           s := slice inst s (t - 1) pops (if p then "panicked" else "exited"); nev := nev + 1
-          pops := []
+          if let some nt := noted then
+            if !p then
+              s := cmpState s nt s!"thread {t} (exit)"; ncmp := ncmp + 1
+          pops := []; noted := none
         | "deadlock" => s := fail s "real run: no runnable thread (deadlock)"
         | "budget" => s := fail s "real run: step budget used up"
         | _ => pure ()
@@ -417,7 +439,7 @@ def handle (line : String) : String :=
       if g "exec" != s.st.executed || g "bound" != s.st.bound || g "nosol" != s.st.noSol || g "inf" != s.st.infeasible
          || g "feas" != s.st.feasible || g "newbest" != s.st.newBest then return "MISMATCH stats"
       if s.st.gen != s.st.executed + s.st.bound then return "MISMATCH generated != executed + bound"
-      return s!"ok ev={nev}"
+      return s!"ok ev={nev} cmp={ncmp}"
 end TR
 
 /-! ## CR: io::cdedb::read on a (tagged) JSON value -/
